@@ -274,36 +274,31 @@ Qed.
 (* ======================================================================== *)
 (* the rows of the table of configuration c and seed s, limited to max_resource *)
 Definition curve_of (c : config) (seed : nat) : curve := nth seed (nth (c_idx c) tbl []) [].
-Definition limit (c : config) (n : nat) : nat :=
-  match c_maxres c with Some m => Nat.min m n | None => n end.
-(* resume point actually used: the paused level with checkpointing, else 0 (from scratch) *)
-Definition resume_point (rp : option nat) : nat :=
-  match rp with Some p => if checkpointing S_ then p else O | None => O end.
 
-Lemma with_levels_length cv : forall l, length (with_levels l cv) = length cv.
-Proof. induction cv as [|r cv IH]; intro l; simpl; [reflexivity|]. rewrite IH. reflexivity. Qed.
+(* the rows of the table with their levels (VALUES of fidelity_values), limited to max_resource *)
+Definition table_results (c : config) (seed : nat) : list result :=
+  filter (in_range c) (with_levels (fidelities S_) (curve_of c seed)).
+(* the level a run resumes after: the paused level with checkpointing, else none (from scratch) *)
+Definition resume_level (rp : option nat) : option nat :=
+  match rp with Some p => if checkpointing S_ then Some p else None | None => None end.
+Definition above (rl : option nat) (r : result) : bool :=
+  match rl with Some p => Nat.ltb p (res_level r) | None => true end.
 
-Lemma with_levels_nth cv : forall l i r, nth_error (with_levels l cv) i = Some r ->
-  exists rw, nth_error cv i = Some rw /\ r = mkRes (l + i) (r_elapsed rw) (r_metrics rw).
+Lemma with_levels_length cv : forall fs, (length (with_levels fs cv) <= length cv)%nat.
+Proof. induction cv as [|r cv IH]; intros [|f fs]; simpl; try lia. specialize (IH fs). lia. Qed.
+
+Lemma with_levels_nth cv : forall fs i r, nth_error (with_levels fs cv) i = Some r ->
+  exists f rw, nth_error fs i = Some f /\ nth_error cv i = Some rw /\ r = mkRes f (r_elapsed rw) (r_metrics rw).
 Proof.
-  induction cv as [|rw cv IH]; intros l i r H; simpl in H.
-  - destruct i; discriminate.
-  - destruct i as [|i]; simpl in H.
-    + injection H as <-. exists rw. split; [reflexivity|]. rewrite Nat.add_0_r. reflexivity.
-    + apply IH in H as (rw' & H1 & ->). exists rw'. split; [exact H1|]. f_equal. lia.
+  induction cv as [|rw cv IH]; intros [|f fs] i r H; simpl in H; try (destruct i; discriminate).
+  destruct i as [|i]; simpl in H.
+  - injection H as <-. exists f, rw. repeat split.
+  - apply IH in H. exact H.
 Qed.
 
-Lemma filter_in_range c cv : forall l m, c_maxres c = Some m ->
-  filter (in_range c) (with_levels l cv) = with_levels l (firstn (S m - l) cv).
+Lemma with_levels_levels cv : forall fs, map res_level (with_levels fs cv) = firstn (length cv) fs.
 Proof.
-  induction cv as [|rw cv IH]; intros l m Hm.
-  - simpl. rewrite firstn_nil. reflexivity.
-  - cbn [with_levels filter]. unfold in_range at 1. rewrite Hm. cbn [res_level].
-    destruct (Nat.leb l m) eqn:E.
-    + apply Nat.leb_le in E. replace (S m - l)%nat with (S (m - l)) by lia. cbn [firstn with_levels].
-      f_equal. rewrite (IH (S l) m Hm). replace (S m - S l)%nat with (m - l)%nat by lia. reflexivity.
-    + apply Nat.leb_gt in E. replace (S m - l)%nat with O by lia. cbn [firstn with_levels].
-      rewrite (IH (S l) m Hm). replace (S m - S l)%nat with O by lia. reflexivity.
+  induction cv as [|r cv IH]; intros [|f fs]; simpl; try reflexivity. rewrite IH. reflexivity.
 Qed.
 
 Lemma filter_true {A} (f : A -> bool) l : (forall x, In x l -> f x = true) -> filter f l = l.
@@ -312,35 +307,16 @@ Proof.
   rewrite (H x (or_introl eq_refl)). f_equal. apply IH. intros y Hy. apply H. right. exact Hy.
 Qed.
 
-(* all_results = levels 1..limit of the table curve *)
-Lemma all_results_spec c seed all : all_results tbl c seed = Ok all ->
-  all = with_levels 1 (firstn (limit c (length (curve_of c seed))) (curve_of c seed)).
+(* all_results = the table rows by level value, up to max_resource *)
+Lemma all_results_spec c seed all : all_results S_ tbl c seed = Ok all -> all = table_results c seed.
 Proof.
-  unfold all_results, curve_of, limit.
-  destruct (match c_maxres c with Some m => Nat.ltb m 1 | None => false end); [discriminate|].
+  unfold all_results, table_results, curve_of.
+  destruct (match c_maxres c with Some m => Nat.ltb m (fid_min S_) | None => false end); [discriminate|].
   destruct (negb (Nat.ltb seed (num_seeds tbl))); [discriminate|].
   destruct (nth_error tbl (c_idx c)) as [per_seed|] eqn:E1; [|discriminate].
   destruct (nth_error per_seed seed) as [cv|] eqn:E2; [|discriminate].
   intro H. injection H as <-.
-  rewrite (nth_error_nth _ _ [] E1). rewrite (nth_error_nth per_seed seed (@nil row) E2).
-  destruct (c_maxres c) as [m|] eqn:Hm.
-  - rewrite (filter_in_range c cv 1 m Hm). replace (S m - 1)%nat with m by lia.
-    f_equal. rewrite <- (firstn_firstn cv m (length cv)) at 1. rewrite firstn_all. reflexivity.
-  - rewrite firstn_all. apply filter_true. intros x _. unfold in_range. rewrite Hm. reflexivity.
-Qed.
-
-(* filtering the levels above the paused level = dropping the first p rows *)
-Lemma filter_above cv : forall l p,
-  filter (fun r => Nat.ltb p (res_level r)) (with_levels l cv) = with_levels (Nat.max l (S p)) (skipn (S p - l) cv).
-Proof.
-  induction cv as [|rw cv IH]; intros l p.
-  - simpl. rewrite skipn_nil. reflexivity.
-  - cbn [with_levels filter res_level]. destruct (Nat.ltb p l) eqn:E.
-    + apply Nat.ltb_lt in E. replace (S p - l)%nat with O by lia. cbn [skipn with_levels].
-      replace (Nat.max l (S p)) with l by lia. f_equal.
-      rewrite IH. replace (S p - S l)%nat with O by lia. cbn [skipn]. f_equal. lia.
-    + apply Nat.ltb_ge in E. replace (S p - l)%nat with (S (p - l)) by lia. cbn [skipn].
-      rewrite IH. replace (S p - S l)%nat with (p - l)%nat by lia. f_equal. lia.
+  rewrite (nth_error_nth _ _ [] E1). rewrite (nth_error_nth per_seed seed (@nil row) E2). reflexivity.
 Qed.
 
 (* the repair: e_0 = max(x_0, eps), e_{i+1} = max(x_{i+1}, e_i + eps); levels and metrics untouched *)
@@ -440,36 +416,14 @@ Proof.
   apply IH. eapply spaced_compat; [|exact Hs']. simpl. rewrite He. reflexivity.
 Qed.
 
-Lemma with_levels_levels cv : forall l, map res_level (with_levels l cv) = seq l (length cv).
-Proof. induction cv as [|r cv IH]; intro l; simpl; [reflexivity|]. rewrite IH. reflexivity. Qed.
-
-(* the job before the repair: levels k+1, k+2, ... of the table curve (k = resume point),
-   elapsed time = table value minus the table value at level k (0 if k = 0) *)
-Definition limited (c : config) (seed : nat) : curve :=
-  firstn (limit c (length (curve_of c seed))) (curve_of c seed).
-Definition offset (c : config) (seed : nat) (k : nat) : Q :=
-  match k with
-  | O => 0
-  | S k' => match nth_error (limited c seed) k' with Some rw => r_elapsed rw | None => 0 end
-  end.
+(* the job before the repair: the table rows above the resume level (by level VALUE), elapsed time =
+   table value minus the table value at the resume level (0 if the trial starts from scratch or no
+   row has that level) *)
+Definition offset (c : config) (seed : nat) (rl : option nat) : Q :=
+  match rl with Some p => offset_of p (table_results c seed) | None => 0 end.
 Definition raw_job (c : config) (seed : nat) (rp : option nat) : list result :=
-  let k := resume_point rp in
-  map (fun r => set_elapsed r (res_elapsed r - offset c seed k)) (with_levels (S k) (skipn k (limited c seed))).
-
-Lemma offset_of_spec cv : forall l p o,
-  fold_left (fun o r => if Nat.eqb (res_level r) p then res_elapsed r else o) (with_levels l cv) o =
-  if Nat.leb l p then match nth_error cv (p - l) with Some rw => r_elapsed rw | None => o end else o.
-Proof.
-  induction cv as [|rw cv IH]; intros l p o; cbn [with_levels fold_left res_level res_elapsed].
-  - destruct (Nat.leb l p); [|reflexivity]. destruct (p - l)%nat; reflexivity.
-  - rewrite IH. destruct (Nat.eqb l p) eqn:E.
-    + apply Nat.eqb_eq in E. subst. rewrite Nat.leb_refl, Nat.sub_diag. cbn [nth_error].
-      destruct (Nat.leb (S p) p) eqn:E2; [apply Nat.leb_le in E2; lia | reflexivity].
-    + apply Nat.eqb_neq in E. destruct (Nat.leb l p) eqn:E1.
-      * apply Nat.leb_le in E1. destruct (Nat.leb (S l) p) eqn:E2; [|apply Nat.leb_gt in E2; lia].
-        replace (p - l)%nat with (S (p - S l)) by lia. reflexivity.
-      * apply Nat.leb_gt in E1. destruct (Nat.leb (S l) p) eqn:E2; [apply Nat.leb_le in E2; lia | reflexivity].
-Qed.
+  let rl := resume_level rp in
+  map (fun r => set_elapsed r (res_elapsed r - offset c seed rl)) (filter (above rl) (table_results c seed)).
 
 Lemma Forall2_map_req (f g : result -> result) l :
   (forall r, req (f r) (g r)) -> Forall2 req (map f l) (map g l).
@@ -478,67 +432,75 @@ Proof. intro H. induction l; simpl; constructor; auto. Qed.
 Lemma job_results_spec c seed rp rs : job_results S_ tbl c seed rp = Ok rs ->
   raw_job c seed rp <> [] /\ repaired None (raw_job c seed rp) rs.
 Proof.
-  unfold job_results. destruct (all_results tbl c seed) as [all|] eqn:Ha; [|discriminate].
-  apply all_results_spec in Ha. fold (limited c seed) in Ha. intro Hr.
+  unfold job_results. destruct (all_results S_ tbl c seed) as [all|] eqn:Ha; [|discriminate].
+  apply all_results_spec in Ha. intro Hr.
   apply repair_spec in Hr as [Hne Hr].
   assert (HF : Forall2 req (raw_job c seed rp) (resume_filter S_ rp all)).
-  { unfold raw_job, resume_filter, resume_point. subst all.
+  { unfold raw_job, resume_filter, resume_level, offset. subst all.
     destruct rp as [p|]; [destruct (checkpointing S_)|].
-    - rewrite filter_above. replace (Nat.max 1 (S p)) with (S p) by lia.
-      replace (S p - 1)%nat with p by lia.
-      unfold offset_of. rewrite offset_of_spec.
-      assert (Ho : (if Nat.leb 1 p then match nth_error (limited c seed) (p - 1) with
-                                         | Some rw => r_elapsed rw | None => 0 end else 0)
-                   = offset c seed p).
-      { unfold offset. destruct p as [|p']; simpl; [reflexivity|]. rewrite Nat.sub_0_r. reflexivity. }
-      rewrite Ho. apply Forall2_map_req. intro r. repeat split; simpl. symmetry. apply qsub_eq.
-    - simpl. rewrite <- (map_id (with_levels 1 (limited c seed))) at 2.
+    - simpl. apply Forall2_map_req. intro r. repeat split; simpl. symmetry. apply qsub_eq.
+    - simpl. rewrite filter_true by reflexivity. rewrite <- (map_id (table_results c seed)) at 2.
       apply Forall2_map_req. intro r. repeat split; simpl. lra.
-    - simpl. rewrite <- (map_id (with_levels 1 (limited c seed))) at 2.
+    - simpl. rewrite filter_true by reflexivity. rewrite <- (map_id (table_results c seed)) at 2.
       apply Forall2_map_req. intro r. repeat split; simpl. lra. }
   split.
   - intro E. rewrite E in HF. inversion HF as [HH|]. apply Hne. symmetry. exact H.
   - eapply repaired_req; eauto.
 Qed.
 
-(* consequences, in table terms *)
-Lemma nth_error_skipn' {A} (l : list A) : forall k i, nth_error (skipn k l) i = nth_error l (k + i).
-Proof.
-  induction l as [|x l IH]; intros k i.
-  - rewrite skipn_nil. destruct i, k; reflexivity.
-  - destruct k; [reflexivity|]. simpl. apply IH.
-Qed.
-Lemma nth_error_firstn' {A} (l : list A) : forall m i x,
-  nth_error (firstn m l) i = Some x -> nth_error l i = Some x /\ (i < m)%nat.
-Proof.
-  induction l as [|y l IH]; intros m i x H.
-  - rewrite firstn_nil in H. destruct i; discriminate.
-  - destruct m; [destruct i; discriminate|]. destruct i as [|i]; simpl in H |- *.
-    + split; [exact H|lia].
-    + apply IH in H as [H1 H2]. split; [exact H1|lia].
-Qed.
-
+(* consequences, in table terms: a report of the job is row j of the table curve, j the position of
+   its level in fidelity_values; it is within max_resource and above the resume level *)
 Lemma raw_job_nth c seed rp i r : nth_error (raw_job c seed rp) i = Some r ->
-  exists rw, nth_error (curve_of c seed) (resume_point rp + i) = Some rw /\
-             res_level r = S (resume_point rp + i) /\
-             (match c_maxres c with Some m => (res_level r <= m)%nat | None => True end) /\
-             res_metrics r = r_metrics rw /\
-             res_elapsed r = r_elapsed rw - offset c seed (resume_point rp).
+  exists j rw, nth_error (fidelities S_) j = Some (res_level r) /\
+               nth_error (curve_of c seed) j = Some rw /\
+               res_metrics r = r_metrics rw /\
+               res_elapsed r = r_elapsed rw - offset c seed (resume_level rp) /\
+               in_range c r = true /\ above (resume_level rp) r = true.
 Proof.
-  unfold raw_job. intro H. rewrite nth_error_map in H.
-  destruct (nth_error (with_levels (S (resume_point rp)) (skipn (resume_point rp) (limited c seed))) i) as [x|] eqn:E;
-    [|discriminate].
-  simpl in H. injection H as <-. apply with_levels_nth in E as (rw & E & ->).
-  rewrite nth_error_skipn' in E. unfold limited in E. apply nth_error_firstn' in E as [E Hlt].
-  exists rw. cbn [res_level res_metrics res_elapsed set_elapsed]. repeat split; auto.
-  unfold limit in Hlt. destruct (c_maxres c); [lia|exact I].
+  unfold raw_job. intro H. apply nth_error_In in H. apply in_map_iff in H as (r0 & <- & Hin).
+  apply filter_In in Hin as [Hin Hab]. unfold table_results in Hin. apply filter_In in Hin as [Hin Hir].
+  apply In_nth_error in Hin as [j Hj]. apply with_levels_nth in Hj as (f & rw & Hf & Hrw & ->).
+  exists j, rw. simpl in *. repeat split; assumption.
 Qed.
 
+Lemma map_level_filter (P : nat -> bool) (l : list result) :
+  map res_level (filter (fun r => P (res_level r)) l) = filter P (map res_level l).
+Proof. induction l as [|r l IH]; simpl; [reflexivity|]. destruct (P (res_level r)); simpl; rewrite IH; reflexivity. Qed.
+
+Definition lvl_in_range (c : config) (f : nat) : bool :=
+  match c_maxres c with None => true | Some m => Nat.leb f m end.
+Definition lvl_above (rl : option nat) (f : nat) : bool :=
+  match rl with Some p => Nat.ltb p f | None => true end.
+
+(* the levels a job reports: exactly the fidelity values within max_resource and above the resume
+   level, in table order, none skipped *)
 Lemma raw_job_levels c seed rp :
-  map res_level (raw_job c seed rp) = seq (S (resume_point rp)) (length (raw_job c seed rp)).
+  map res_level (raw_job c seed rp) =
+  filter (lvl_above (resume_level rp))
+         (filter (lvl_in_range c) (firstn (length (curve_of c seed)) (fidelities S_))).
 Proof.
-  unfold raw_job. rewrite map_map. simpl. rewrite map_length, with_levels_length.
-  rewrite <- with_levels_levels. reflexivity.
+  unfold raw_job, table_results. rewrite map_map. simpl.
+  change (fun x : result => res_level x) with res_level.
+  change (above (resume_level rp)) with (fun r => lvl_above (resume_level rp) (res_level r)).
+  rewrite map_level_filter.
+  change (in_range c) with (fun r => lvl_in_range c (res_level r)).
+  rewrite map_level_filter, with_levels_levels. reflexivity.
+Qed.
+
+(* with distinct fidelity values the offset is the elapsed time of THE row of the paused level *)
+Lemma offset_of_unique p : forall l r, NoDup (map res_level l) -> In r l -> res_level r = p ->
+  forall o, fold_left (fun o r => if Nat.eqb (res_level r) p then res_elapsed r else o) l o = res_elapsed r.
+Proof.
+  induction l as [|x l IH]; intros r Hnd Hin Hp o; [contradiction|]. simpl.
+  inversion Hnd as [|a b Hnot Hnd']; subst. destruct Hin as [->|Hin].
+  - rewrite Nat.eqb_refl.
+    assert (Hrest : forall l' o', (forall y, In y l' -> res_level y <> res_level r) ->
+              fold_left (fun o r0 => if Nat.eqb (res_level r0) (res_level r) then res_elapsed r0 else o) l' o' = o').
+    { induction l' as [|y l' IH']; intros o' Hy; [reflexivity|]. simpl.
+      destruct (Nat.eqb (res_level y) (res_level r)) eqn:E; [apply Nat.eqb_eq in E; exfalso; eapply Hy; [left; reflexivity|exact E]|].
+      apply IH'. intros z Hz. apply Hy. right. exact Hz. }
+    apply Hrest. intros y Hy E. apply Hnot. rewrite <- E. apply in_map. exact Hy.
+  - apply IH; auto.
 Qed.
 
 (* ======================================================================== *)
@@ -864,21 +826,22 @@ Qed.
 Definition delivered_ok (st : state) (t k i : nat) (r : result) (ts : Q) : Prop :=
   exists run,
     nth_error (runs st) k = Some run /\ run_trial run = t /\ nth_error (run_results run) i = Some r /\
-    let c := run_cfg run in let s := run_seed run in let p := resume_point (run_rp run) in
-    (* values: the table row of that configuration, seed and level *)
-    (exists rw, nth_error (curve_of c s) (p + i) = Some rw /\
-                res_level r = S (p + i) /\ res_metrics r = r_metrics rw /\
-                match c_maxres c with Some m => (res_level r <= m)%nat | None => True end) /\
-    (* levels of the run: consecutive, from resume point + 1 *)
-    map res_level (run_results run) = seq (S p) (length (run_results run)) /\
+    let c := run_cfg run in let s := run_seed run in let rl := resume_level (run_rp run) in
+    (* values: the table row of that configuration and seed at the position of the level in fidelity_values *)
+    (exists j rw, nth_error (fidelities S_) j = Some (res_level r) /\
+                  nth_error (curve_of c s) j = Some rw /\ res_metrics r = r_metrics rw /\
+                  lvl_in_range c (res_level r) = true /\ lvl_above rl (res_level r) = true) /\
+    (* levels of the run: the fidelity values within max_resource above the resume level, none skipped *)
+    map res_level (run_results run) =
+      filter (lvl_above rl) (filter (lvl_in_range c) (firstn (length (curve_of c s)) (fidelities S_))) /\
     (* one seed per trial *)
     match fixed_seed S_ with Some s0 => s = s0 | None => lookup t (seeds st) = Some s end /\
-    (* time stamp: start of that run + elapsed since the resume point (repaired) + delay *)
+    (* time stamp: start of that run + elapsed since the resume level (repaired) + delay *)
     ts == run_te run + res_elapsed r + d_result S_ /\
     repaired None (raw_job c s (run_rp run)) (run_results run) /\
     (spaced (eps S_) (raw_job c s (run_rp run)) ->
-     exists rw, nth_error (curve_of c s) (p + i) = Some rw /\
-                res_elapsed r == r_elapsed rw - offset c s p).
+     exists j rw, nth_error (fidelities S_) j = Some (res_level r) /\ nth_error (curve_of c s) j = Some rw /\
+                  res_elapsed r == r_elapsed rw - offset c s rl).
 
 Lemma tagged_delivered st t k i r ts : Inv st -> tagged st t k i r ts -> delivered_ok st t k i r ts.
 Proof.
@@ -886,15 +849,15 @@ Proof.
   destruct (H3 k run Hk) as [Hj Hs]. apply job_results_spec in Hj as [Hne Hrep].
   exists run. split; [exact Hk|]. split; [exact Ht|]. split; [exact Hi|]. cbv zeta.
   destruct (repaired_nth _ _ _ Hrep i r Hi) as (raw & Hraw & Hl & Hm & _).
-  pose proof (raw_job_nth _ _ _ _ _ Hraw) as (rw & Hrw & Hlev & Hmax & Hmet & Hel).
+  pose proof (raw_job_nth _ _ _ _ _ Hraw) as (j & rw & Hf & Hrw & Hmet & Hel & Hir & Hab).
   destruct (repaired_fields _ _ _ Hrep) as (Hlv & _ & Hlen).
   split; [|split; [|split; [|split; [|split]]]].
-  - exists rw. repeat split; try congruence. rewrite Hl. exact Hmax.
-  - rewrite Hlv, raw_job_levels, Hlen. reflexivity.
+  - exists j, rw. rewrite Hl. repeat split; try congruence.
+  - rewrite Hlv. apply raw_job_levels.
   - unfold seed_ok in Hs. rewrite Ht in Hs. exact Hs.
   - exact Hts.
   - exact Hrep.
-  - intro Hsp. exists rw. split; [exact Hrw|].
+  - intro Hsp. exists j, rw. rewrite Hl. split; [exact Hf|]. split; [exact Hrw|].
     pose proof (repaired_faithful _ _ _ Hrep Hsp) as HF.
     destruct (Forall2_nth _ _ _ HF i r Hi) as (raw' & Hraw' & (_ & _ & He)).
     rewrite Hraw in Hraw'. injection Hraw' as <-. rewrite He, Hel. reflexivity.
@@ -1223,14 +1186,17 @@ Qed.
 Lemma job_results_length c seed rp rs : job_results S_ tbl c seed rp = Ok rs -> (length rs <= max_curve)%nat.
 Proof.
   intro H. apply job_results_spec in H as [_ H]. apply repaired_fields in H as (_ & _ & ->).
-  unfold raw_job. rewrite map_length, with_levels_length, skipn_length. unfold limited. rewrite firstn_length.
+  unfold raw_job, table_results. rewrite map_length.
+  pose proof (filter_length_le (above (resume_level rp)) (filter (in_range c) (with_levels (fidelities S_) (curve_of c seed)))).
+  pose proof (filter_length_le (in_range c) (with_levels (fidelities S_) (curve_of c seed))).
+  pose proof (with_levels_length (curve_of c seed) (fidelities S_)).
   pose proof (curve_of_le c seed). lia.
 Qed.
 
 Lemma job_results_no_fuel c seed rp : job_results S_ tbl c seed rp <> Err EFuel.
 Proof.
   unfold job_results, all_results.
-  destruct (match c_maxres c with Some m => Nat.ltb m 1 | None => false end); [discriminate|].
+  destruct (match c_maxres c with Some m => Nat.ltb m (fid_min S_) | None => false end); [discriminate|].
   destruct (negb (Nat.ltb seed (num_seeds tbl))); [discriminate|].
   destruct (nth_error tbl (c_idx c)); [|discriminate].
   destruct (nth_error l seed); [|discriminate].
